@@ -17,10 +17,14 @@ EXPLANATION = (
     "appends the NUL last; (errflow) every ParseResult is mapped through format_parse_error and propagated with `?` up to run::build, and reaches main's "
     "`n2: error: ` arm with exit 1; (diagnostic) format_parse_error scans the whole buffer so offset == len has a line, its byte cuts are guard-dominated "
     "and it converts lossily; (str-cut) every non-constant str cut in the crate is boundary-safe; (canon-pre) no explicit panic is reachable from "
-    "canonicalize_path, which is called on unvalidated strings. Decides these clauses, not termination of the parsing loops nor absence of all panics."
+    "canonicalize_path, which is called on unvalidated strings; (advance) the same interpreter tracks a lower bound of the net number of bytes consumed: every cycle of "
+    "every scanner-driven loop in parse.rs, depfile.rs and scanner.rs consumes at least one byte (offset snapshots compared exactly, scratch-vector emptiness "
+    "tracked), and Parser::read returns Ok(Some) only after consuming input and Ok(None) only at the NUL, so with the cursor bounded by the buffer these "
+    "loops and the loader's statement loop terminate. Decides these clauses, not absence of all panics nor termination of loops that are not scanner-driven "
+    "(include recursion, iterator loops)."
 )
 ASSUMPTIONS = [
-    "termination of parser loops and absence of every possible panic (bounds checks, arithmetic overflow) are not decided",
+    "absence of every possible panic (bounds checks, arithmetic overflow) and termination of non-scanner loops (e.g. include recursion on a file that includes itself) are not decided",
     "numeric invariants of canonicalize_path's in-place rewrite are C13's undecided part",
 ]
 THOROUGH_CONFIGS = ["crlf", "nodefault"]
@@ -54,6 +58,12 @@ def run(ck, ctx):
     res = ck.extra.get("typestate", {}).get("exits", {})
     pr = res.get("parse::Parser::read", [])
     ck.ob("nul-typestate", "Parser::read|ok-implies-safe", bool(pr) and not any("'Ok'" in x and "'SAFE'" not in x for x in pr), "Parser::read returns Ok only with the scanner SAFE: exits %s" % pr, span="parse::Parser::read")
+    raw = ck.extra.pop("typestate_raw_exits", {}).get("parse::Parser::read", [])
+    somes = [x for x in raw if x[1] and x[1][:2] == ("res", "Ok") and len(x[1]) > 2 and x[1][2] == ("opt", "Some")]
+    nones = [x for x in raw if x[1] and x[1][:2] == ("res", "Ok") and len(x[1]) > 2 and x[1][2] == ("opt", "None")]
+    untyped = [x for x in raw if x[1] and x[1][:2] == ("res", "Ok") and len(x[1]) == 2]
+    ck.ob("advance", "Parser::read|statement-consumes-input", bool(somes) and all(x[2][0] >= 1 for x in somes) and not untyped, "every Ok(Some(statement)) return of Parser::read has consumed at least one byte, so the loader's statement loop terminates (%d exit classes)" % len(somes), span="parse::Parser::read")
+    ck.ob("advance", "Parser::read|none-only-at-nul", bool(nones) and all(x[3] for x in nones), "Ok(None) is returned only when the byte under the cursor is the NUL terminator", span="parse::Parser::read")
     S.scanner_axioms(ck, ctx)
     S.inputs_nul_terminated(ck, ctx)
     S.parse_error_flow(ck, ctx)
@@ -68,5 +78,6 @@ def run(ck, ctx):
 def run_config(ck, ctx):
     # crlf changes read/peek/back; nodefault only the allocator
     S.nul_typestate(ck, ctx, ["parse::Parser::read", "depfile::parse"])
+    ck.extra.pop("typestate_raw_exits", None)
     S.scanner_axioms(ck, ctx)
     G.str_cuts(ck, ctx, "str-cut")
